@@ -17,7 +17,7 @@ RULE = ("(1) for every built-in command of the CSV library set a valid base mode
         "wrong-fuzziness results, bad paths, unknown command, duplicate result); (2) the same faults at random positions of random "
         "models with sinks; (3) every producer x consumer pairing of built-in data commands; (4) unfaulted models must be accepted; "
         "distinct by (fault kind, command, parameter, variant) / (producer, consumer)")
-REQUIRED_COUNTERS = ["rejections_checked", "side_effect_free_rejections", "acceptances_checked", "pairings_checked", "exec_events_seen_in_valid_runs", "netcdf_model_cases", "api_built_models", "incremental_rejections_checked"]
+REQUIRED_COUNTERS = ["rejections_checked", "side_effect_free_rejections", "acceptances_checked", "pairings_checked", "exec_events_seen_in_valid_runs", "netcdf_model_cases", "api_built_models", "incremental_rejections_checked", "user_subclass_models", "shared_argument_programs"]
 ASSUMPTIONS = ["a list or tuple given to a String/Path parameter is don't-care (string cleaning stringifies by design)",
                "value-dependent run-time errors (InvalidThresholds, DuplicateRawValues, ...) are not acceptance errors",
                "the acceptance rule is restated from the declarations (inputs/required/output/is_fuzzy), not from running clean()"]
@@ -153,6 +153,13 @@ def cases(ctx):
         writer = {"result": "LateOut", "cmd": "EEMSWrite", "args": {"OutFileName": "late.csv", "OutFieldNames": [rng.choice(nf)]}}
         extra = [bad, writer] if rng.random() < 0.5 else [writer, bad]
         yield {"kind": "incremental", "model": m, "extra": extra, "fault": fault, "ok": ok}
+    # commands of a user's library that specialise built-in fuzzy commands (their results are fuzzy by inheritance)
+    for i in range(ctx.n(16, 400)):
+        yield {"kind": "subclass", "variant": i * ctx.nshards + ctx.shard}
+    # two programs built through add_command from the very same argument objects (lists of result names): each is judged
+    # against its own commands
+    for i in range(ctx.n(40, 2000)):
+        yield {"kind": "sharedargs", "model": models.gen_model(rng, n_ops=rng.randint(2, 5), sinks=True), "rseed": rng.randrange(10 ** 9)}
     # (3) pairings
     data_cmds = list(cmdgen.ALL)
     k = 0
@@ -266,10 +273,100 @@ def run_incremental(ctx, case):
         ctx.count("side_effect_free_rejections")
 
 
+SUBCLASS_TEXTS = [
+    # (text after the two reads, expected error or None)
+    ("FA = MyConv(InFieldName = A, TrueThreshold = 5, FalseThreshold = 0)\nN = FuzzyNot(InFieldName = FA)", None),
+    ("FA = MyConv(InFieldName = A, TrueThreshold = 5, FalseThreshold = 0)\nFB = CvtToFuzzy(InFieldName = B)\nX = MyOr(InFieldNames = [FA, FB])\nU = FuzzyUnion(InFieldNames = [X, FA])", None),
+    ("FA = MyConv(InFieldName = A, TrueThreshold = 5, FalseThreshold = 0)\nS = Sum(InFieldNames = [A, FA])\nOut = EEMSWrite(OutFileName = \"o.csv\", OutFieldNames = [S])", "ResultIsFuzzy"),
+    ("FB = CvtToFuzzy(InFieldName = B)\nX = MyOr(InFieldNames = [FB])\nC = CvtToFuzzy(InFieldName = X)\nOut = EEMSWrite(OutFileName = \"o.csv\", OutFieldNames = [C])", "ResultIsFuzzy"),
+    ("X = MyOr(InFieldNames = [A, B])\nOut = EEMSWrite(OutFileName = \"o.csv\", OutFieldNames = [X])", "ResultNotFuzzy"),
+    ("FA = MyConv(InFieldName = A)\nFF = MyConv(InFieldName = FA)", "ResultIsFuzzy"),
+]
+
+
+def run_subclass(ctx, case):
+    body, want = SUBCLASS_TEXTS[case["variant"] % len(SUBCLASS_TEXTS)]
+    d = ctx.scratch()
+    with open(os.path.join(d, "in.csv"), "w") as f:
+        f.write("a,b\n1,2\n3,4\n5,7\n")
+    text = 'A = EEMSRead(InFileName = "in.csv", InFieldName = a)\nB = EEMSRead(InFileName = "in.csv", InFieldName = b)\n' + body
+    err, prog, log, changed = _run_monitored(ctx, text, d, libs=arr.CSV_LIBS + ("usercmds",))
+    ctx.count("pairings_checked")
+    ctx.count("user_subclass_models")
+    ctx.feature(("subclass", case["variant"] % len(SUBCLASS_TEXTS)))
+    name = type(err).__name__ if err is not None else None
+    if want is None:
+        if name is not None:
+            ctx.fail("subclass-of-a-fuzzy-command:compatible-rejected:%s" % name, {"text": text, "error": str(err)[:200]})
+    else:
+        execs, writes, changed, finished = _side_effects(log, changed, prog)
+        if name != want:
+            ctx.fail("subclass-of-a-fuzzy-command:incompatible-%s:%s" % (want, "accepted" if name is None else "rejected-with-" + name), {"text": text, "error": str(err)[:200]})
+        if execs or writes or changed or finished:
+            ctx.fail("subclass-of-a-fuzzy-command:side-effect-before-rejection", {"text": text, "executed": execs[:6], "fs": writes[:4]})
+
+
+def run_sharedargs(ctx, case):
+    """Program 1 (valid) and program 2 (one producer left out) are built from the same argument objects."""
+    from mpilot.program import Program
+    model = case["model"]
+    rng = random.Random(case["rseed"])
+    d1, d2 = ctx.scratch(), ctx.scratch()
+    models.write_table(model["table"], d1)
+    models.write_table(model["table"], d2)
+    shared = [dict(c, args=dict(c["args"])) for c in model["commands"]]     # the very objects handed to both programs
+    consumed = [v for c in shared for k, v in c["args"].items() if k in ("InFieldName", "A", "B") and isinstance(v, str)] + \
+               [x for c in shared for k, v in c["args"].items() if k in ("InFieldNames", "OutFieldNames") and isinstance(v, list) for x in v]
+    consumed = [x for x in consumed if any(c["result"] == x for c in shared)]
+    if not consumed:
+        ctx.dontcare("no reference in this model")
+        return
+    victim = rng.choice(sorted(set(consumed)))
+    ctx.count("rejections_checked")
+    ctx.count("shared_argument_programs")
+    ctx.feature(("sharedargs", len(shared)))
+    try:
+        p1 = Program(libraries=arr.CSV_LIBS, working_dir=d1)
+        for c in shared:
+            p1.add_command(p1.find_command_class(c["cmd"]), c["result"], c["args"])
+        p1.run()
+    except Exception as e:
+        ctx.dontcare("first program raises %s" % type(e).__name__)
+    before = trace.snapshot_dir(d2)
+    log = trace.start(watch_dirs=[d2])
+    err = None
+    try:
+        p2 = Program(libraries=arr.CSV_LIBS, working_dir=d2)
+        for c in shared:
+            if c["result"] != victim:
+                p2.add_command(p2.find_command_class(c["cmd"]), c["result"], c["args"])
+        trace.attach(p2)
+        p2.run()
+    except Exception as e:
+        err = e
+    finally:
+        trace.stop()
+    execs = [e["name"] for e in log if e["k"] == "exec_enter"]
+    changed = trace.diff_snapshots(before, trace.snapshot_dir(d2))
+    detail = {"left_out": victim, "commands": [(c["result"], c["cmd"]) for c in shared]}
+    if err is None:
+        ctx.fail("shared-argument-objects:missing-result-accepted-in-the-second-program", dict(detail, executed=execs[:6]))
+    elif type(err).__name__ != "ResultDoesNotExist":
+        ctx.fail("shared-argument-objects:second-program-rejected-with-%s" % type(err).__name__, dict(detail, error=str(err)[:200]))
+    if execs or changed:
+        ctx.fail("shared-argument-objects:side-effect-before-rejection", dict(detail, executed=execs[:6], changed_files=changed[:4]))
+    else:
+        ctx.count("side_effect_free_rejections")
+
+
 def run_case(ctx, case):
     kind = case["kind"]
     if kind == "pair":
         return run_pair(ctx, case)
+    if kind == "subclass":
+        return run_subclass(ctx, case)
+    if kind == "sharedargs":
+        return run_sharedargs(ctx, case)
     if kind == "incremental":
         return run_incremental(ctx, case)
     if kind == "v2dup":
@@ -296,7 +393,8 @@ def run_case(ctx, case):
         ctx.count("acceptances_checked")
         ctx.count("exec_events_seen_in_valid_runs", sum(1 for e in log if e["k"] == "exec_enter"))
         ctx.feature(("valid", tuple(sorted(set(c["cmd"] for c in model["commands"])))[:6]))
-        if err is not None and type(err).__name__ in ACCEPTANCE_ERRORS:
+        if err is not None and (type(err).__name__ in ACCEPTANCE_ERRORS or type(err).__name__ == "RecursiveModelStructure"):
+            # generated models only refer backwards: never circular, however often one result is referred to
             ctx.fail("valid-model-rejected:%s" % type(err).__name__, {"error": str(err)[:300], "text": text[:1500]})
         elif err is not None:
             ctx.dontcare("valid model: run-time %s" % (type(err).__name__ if type(err).__name__ != "UnexpectedError" else "UnexpectedError/" + type(err.exc).__name__))
